@@ -2,7 +2,8 @@
 # migrate_slots_to_scale_down hands over (every half owns slots, no kept master is over its final share): no arithmetic overflow, no failing
 # expect, termination; the kept chunks are untouched, the trailing chunks lose only their stable halves (both become empty), every
 # produced migration goes from a half of a trailing chunk to a half of a kept chunk with valid indices and the given epoch.
-# NOT proved here: that every slot of a trailing chunk is carried by a migration (needs the global counting argument).
+# every slot a migration carries was owned by the source half and is handed out at most once (taken_once).
+# NOT proved here: that every slot of a trailing chunk is carried by SOME migration (needs the global counting argument).
 import re
 import vlib
 from units import broker_common, range_list
@@ -80,4 +81,5 @@ RLIMIT = 80
 
 MUST_FAIL = '''
 proof fn must_fail_remove_slots_down_room(cs: Seq<ChunkStore>) requires cs.len() > 1 ensures dst_have_room(cs, 1, 8192, 0) { }
+proof fn must_fail_taken_once_trivial(o: Seq<Range>, ms: Seq<MigrationSlots>) requires ms.len() > 0 ensures taken_once(o, ms, 0, 0) { reveal(taken_once); }
 '''
